@@ -25,6 +25,7 @@ mod eng_rules;
 mod eng_simp;
 mod eng_tensor;
 mod gens;
+mod refeval;
 mod util;
 
 use serde_json::json;
@@ -115,9 +116,13 @@ fn main() {
                     diagrams += 1;
                 }
             }
-            json!({"diagrams": diagrams, "tuples": st.tuples, "accepted": st.accepted, "rejected": st.rejected, "per_rule": st.per_rule})
+            // --generic N: phases that are not multiples of pi/4 (float reference evaluator, events rulef / rejf)
+            let generic = eng_rules::record_generic(arg_num(&args, "--generic", 0), seed, &mut tr, &mut st);
+            json!({"diagrams": diagrams, "generic": generic, "tuples": st.tuples, "accepted": st.accepted, "rejected": st.rejected, "per_rule": st.per_rule})
         }
         "tensor" => {
+            // --ref: headers carry the float reference evaluator's tensor (Trace_Tensor!RefEvalOK); --generic N: generic phases
+            eng_tensor::set_ref(arg_flag(&args, "--ref"));
             let mut diagrams = 0usize;
             let stride: usize = arg_num(&args, "--stride", 1);
             let offset: usize = seed as usize % stride.max(1);
@@ -177,7 +182,8 @@ fn main() {
             }
             let ncmp = if arg_flag(&args, "--compare") { eng_tensor::record_compare(&mut tr) } else { 0 };
             let extra = eng_tensor::record_extra(&args, seed, &mut tr);
-            json!({"diagrams": diagrams, "circuits": ncirc, "comparisons": ncmp, "extra": extra})
+            let generic = eng_tensor::record_generic(arg_num(&args, "--generic", 0), seed, &mut tr);
+            json!({"diagrams": diagrams, "circuits": ncirc, "comparisons": ncmp, "extra": extra, "generic": generic})
         }
         "compose" => {
             // pairs (g, h) drawn from the union of: the listed families, the wire-only diagrams, random diagrams
@@ -268,7 +274,9 @@ fn main() {
                     diagrams += 1;
                 }
             }
-            json!({"diagrams": diagrams, "changed_by": counts})
+            // --generic N: phases that are not multiples of pi/4 (float reference evaluator, event simpf)
+            let generic = eng_simp::record_generic(arg_num(&args, "--generic", 0), seed, &mut tr, &fns);
+            json!({"diagrams": diagrams, "generic": generic, "changed_by": counts})
         }
         "tograph" | "circops" | "eqcheck" | "extract" | "xsteps" => {
             // --enum n,maxlen,<alphabet>   exhaustive;  --random N --nq a..b --len a..b   seeded random
@@ -421,7 +429,10 @@ fn main() {
                 handle(circ::ag_json(n, &gs), &mut tr);
                 ncirc += 1;
             }
-            json!({"circuits": ncirc})
+            // --generic N (tograph, extract): circuits with rz / rx / parity-phase angles that are not multiples of pi/4
+            let ngen: usize = arg_num(&args, "--generic", 0);
+            let generic = if ngen > 0 && (engine == "tograph" || engine == "extract") { eng_circ::record_generic(engine, ngen, seed, &mut tr) } else { 0 };
+            json!({"circuits": ncirc, "generic": generic})
         }
         "phase" => eng_phase::record(&args, seed, &mut tr),
         "f2" => eng_f2::record(&args, seed, &mut tr),
